@@ -11,6 +11,7 @@ import NostrRelay.Model.Json
 import NostrRelay.Model.Admission
 import NostrRelay.Model.Proto
 import NostrRelay.Model.Live
+import NostrRelay.Model.Handler
 
 open Lean
 
@@ -257,6 +258,34 @@ def session (j : Json) : Json :=
 
 end PD
 
+namespace HD
+open NostrRelay.Handler
+
+partial def toJ : Json → J
+  | .null => .null
+  | .bool b => .bool b
+  | .num _ => .num
+  | .str s => .str s
+  | .arr xs => .arr (xs.toList.map toJ)
+  | .obj _ => .obj
+
+def cmdStr : Option Cmd → String
+  | none => "none" | some .event => "EVENT" | some .req => "REQ" | some .close => "CLOSE" | some .auth => "AUTH"
+
+def excOf : String → Exc
+  | "StorageError" => .storageError | "AuthenticationError" => .authError | "WebSocketDisconnected" => .wsDisconnected
+  | "ConnectionClosedError" => .connClosedError | "ConnectionClosedOK" => .connClosedOK | "JSONDecodeError" => .jsonDecode
+  | "TimeoutError" => .timeout | "BaseException" => .baseException | _ => .otherException
+
+def nextStr : Next → String
+  | .continueWithNotice => "continue+notice" | .continueSilently => "continue" | .endClean none => "end"
+  | .endClean (some n) => "end:" ++ toString n | .escapeAfterCleanup => "escape"
+
+def respStr : Resp → String
+  | .silent => "silent" | .ok => "ok" | .notice => "notice" | .served => "served" | .closed => "closed"
+
+end HD
+
 structure St where
   rlCfg : NostrRelay.RateLimiter.Config := {}
   rl : NostrRelay.RateLimiter.State := {}
@@ -340,6 +369,13 @@ def step (st : St) (j : Json) : St × Json :=
     let cur := AD.bytesList (j.getObjVal? "cur" |>.toOption.getD Json.null)
     let obs := NostrRelay.Admission.observable cur (AD.parseOps (j.getObjVal? "ops" |>.toOption.getD Json.null))
     (st, Json.arr (obs.map fun st => Json.arr ((st.map toHex).toArray.qsort (· < ·) |>.map Json.str)).toArray)
+  | "hd.gate" =>
+    let c := NostrRelay.Handler.gate (HD.toJ (j.getObjVal? "msg" |>.toOption.getD Json.null))
+    (st, Json.mkObj [("cmd", Json.str (HD.cmdStr c)), ("allowed", Json.arr ((NostrRelay.Handler.allowed c).map fun r => Json.str (HD.respStr r)).toArray)])
+  | "hd.ladder" => (st, Json.str (HD.nextStr (NostrRelay.Handler.ladder (HD.excOf (getStr j "exc")))))
+  | "hd.eventLadder" =>
+    let (ok, n) := NostrRelay.Handler.eventLadder (some (HD.excOf (getStr j "exc")))
+    (st, Json.arr #[match ok with | some b => Json.bool b | none => Json.null, Json.str (HD.nextStr n)])
   | "proto.session" => (st, PD.session j)
   | "live.match" =>
     let fs := SQLD.parseFilters j
